@@ -13,7 +13,9 @@ Body(n, salt) ==
   LET b == Pat(n, salt) IN
   IF salt % 4 = 1 /\ n >= 3 THEN [b EXCEPT ![n - 1] = 0]
   ELSE IF salt % 4 = 2 /\ n >= 6 THEN [b EXCEPT ![2] = 0, ![3] = 0, ![4] = 3]
-  ELSE IF salt % 4 = 3 /\ n >= 4 THEN [b EXCEPT ![1] = 0, ![3] = 0]
+  ELSE IF salt % 8 = 3 /\ n >= 4 THEN [b EXCEPT ![1] = 0, ![3] = 0]
+  ELSE IF salt % 8 = 7 /\ n >= 6 THEN [b EXCEPT ![2] = 0, ![3] = 1, ![4] = 0, ![5] = 1]          \* 00 01 00 01: zeros and ones, never a start code
+  ELSE IF salt % 8 = 0 /\ n >= 7 THEN [b EXCEPT ![1] = 1, ![2] = 0, ![3] = 1, ![4] = 1, ![5] = 0, ![6] = 1]
   ELSE b
 U(t, nri, n, salt) == <<nri * 32 + t>> \o Body(n - 1, salt)
 SizesFor(m) == SetToSeq({ n \in {2, 3, m - 2, m - 1, m, m + 1, m + 2, 2 * m - 3, 2 * m - 2, 2 * m - 1, 2 * m, 3 * m} : n >= 2 })
